@@ -631,6 +631,9 @@ func (c *provCtx) bytesOf(v ssa.Value) string {
 	switch x := v.(type) {
 	case *ssa.MakeSlice:
 		n := strings.TrimPrefix(c.val(x.Len), "k:")
+		if filled := c.filledSlice(x); filled != "" {
+			return filled
+		}
 		parts := c.putUints(x, n)
 		if len(parts) == 0 {
 			return fmt.Sprintf("zeros(%s)", n)
@@ -862,4 +865,75 @@ func readSeq(call *ssa.Call, pkg *ssa.Package) int {
 		}
 	}
 	return n + 1
+}
+
+// filledSlice: a buffer filled piecewise at constant offsets - PutUintN(buf[a:b], v) and
+// copy(buf[a:], x) - rendered in offset order; "" when the buffer is not filled that way.
+func (c *provCtx) filledSlice(buf ssa.Value) string {
+	type piece struct {
+		off int64
+		s   string
+	}
+	var pieces []piece
+	constOf := func(v ssa.Value) (int64, bool) {
+		if v == nil {
+			return 0, true
+		}
+		if k, ok := v.(*ssa.Const); ok && k.Value != nil {
+			i, ok := constant.Int64Val(k.Value)
+			return i, ok
+		}
+		return 0, false
+	}
+	add := func(target ssa.Value, off int64) bool {
+		ok := true
+		for _, ref := range *target.Referrers() {
+			call, isCall := ref.(*ssa.Call)
+			if !isCall {
+				continue
+			}
+			if b, isB := call.Call.Value.(*ssa.Builtin); isB && b.Name() == "copy" && call.Call.Args[0] == target {
+				pieces = append(pieces, piece{off, c.bytesOf(call.Call.Args[1])})
+				continue
+			}
+			if f := staticCallee(&call.Call); f != nil {
+				full := f.String()
+				for _, pre := range []string{"(encoding/binary.bigEndian).PutUint", "(encoding/binary.littleEndian).PutUint"} {
+					if strings.HasPrefix(full, pre) && len(call.Call.Args) == 3 && call.Call.Args[1] == target {
+						bits := strings.TrimPrefix(f.Name(), "PutUint")
+						order := "be"
+						if strings.Contains(pre, "little") {
+							order = "le"
+						}
+						bytesN := map[string]string{"16": "2", "32": "4", "64": "8"}[bits]
+						pieces = append(pieces, piece{off, fmt.Sprintf("%s%s(%s)@%s", order, bits, c.val(call.Call.Args[2]), bytesN)})
+					}
+				}
+			}
+		}
+		return ok
+	}
+	sliced := false
+	add(buf, 0)
+	for _, ref := range *buf.Referrers() {
+		sl, ok := ref.(*ssa.Slice)
+		if !ok || sl.X != buf {
+			continue
+		}
+		off, ok := constOf(sl.Low)
+		if !ok {
+			return ""
+		}
+		sliced = true
+		add(sl, off)
+	}
+	if !sliced || len(pieces) < 2 {
+		return ""
+	}
+	sort.SliceStable(pieces, func(i, j int) bool { return pieces[i].off < pieces[j].off })
+	var parts []string
+	for _, p := range pieces {
+		parts = append(parts, p.s)
+	}
+	return strings.Join(parts, " ")
 }
